@@ -50,3 +50,8 @@ CLAIMED["C15"] = (
  "static analysis: CFG order/reachability rules on the proxy factories (events identified by the static type of the registered object), dominance rules in the poison detector, must-precede rule over every decryption-failure exit of the translator operations, who-may-call rule for the callback storage",
  "Decides that in both proxies and the translator the poison detector is registered (before the decrypt handler, on the 'callbacks configured' edge), that the intrusion callbacks run only and always on the success edge of a trial decryption made with the poison keys, that nobody else invokes them, that all four translator Decrypt* operations check for poison on every decryption-failure exit, and that a callback error aborts the column before delivery. Detection at arbitrary offsets and under rotated poison keys (tag scanning + crypto) is not decided.",
  NOTE, "DESIGN.md §2 C15")
+
+CLAIMED["C11"] = (
+ "static analysis: value-flow non-interference of the masked return, CFG reachability of the plain return, bound prover on the window split, factory wiring rule, validation rules",
+ "Decides that the value handed to a reader who cannot decrypt derives only from the configured pattern (no dependence on the stored bytes or the decryption result), that the decrypted value is returned only after a successful decryption that changed the data, that every window/remainder slice bound is proven in range and short values are protected whole, that both factories build the decrypt handler over the masking processor, and that a masked setting is accepted only after validation that rejects an empty pattern and a negative window. That the delivered window bytes equal the configured window is a value property and not decided.",
+ NOTE, "DESIGN.md §2 C11")
